@@ -36,6 +36,7 @@ import (
 	"time"
 
 	"github.com/ghodss/yaml"
+	"golang.org/x/sys/unix"
 	"mosn.io/api"
 	v2 "mosn.io/mosn/pkg/config/v2"
 	"mosn.io/mosn/pkg/configmanager"
@@ -117,6 +118,9 @@ func c19Reload(c *lab.Ctx) {
 		os.Exit(30)
 	}
 	cfgPath, dumpOut := c.Args[0], c.Args[1]
+	if os.Getenv("C19_NETNS") == "1" {
+		c19LoopbackUp()
+	}
 	c19RegisterExtensions()
 	cfg := configmanager.Load(cfgPath) // os.Exit(1) through StartLogger.Fatalf on unreadable / unparsable input
 	mosn.DefaultInitStage(cfg)
@@ -142,6 +146,24 @@ func c19Reload(c *lab.Ctx) {
 	configmanager.DumpUnlock()
 	fmt.Fprintln(os.Stderr, "C19-CHILD ok")
 	os.Exit(0) // no teardown: nothing was started
+}
+
+// c19LoopbackUp brings "lo" up inside the private network namespace of the child (best effort).
+func c19LoopbackUp() {
+	fd, err := unix.Socket(unix.AF_INET, unix.SOCK_DGRAM, 0)
+	if err != nil {
+		return
+	}
+	defer unix.Close(fd)
+	ifr, err := unix.NewIfreq("lo")
+	if err != nil {
+		return
+	}
+	if unix.IoctlIfreq(fd, unix.SIOCGIFFLAGS, ifr) != nil {
+		return
+	}
+	ifr.SetUint16(ifr.Uint16() | unix.IFF_UP)
+	_ = unix.IoctlIfreq(fd, unix.SIOCSIFFLAGS, ifr)
 }
 
 func c19CopyTree(src, dst string) error {
@@ -184,24 +206,40 @@ func c19RunChild(c *lab.Ctx, cwd, cfgPath, dumpOut, outDir string) (status, deta
 	if err0 != nil {
 		return "spawn", err0.Error()
 	}
-	cmd := exec.Command(self, "c19-reload", "--property", c.Property, "--out", outDir, cfgPath, dumpOut)
-	cmd.Dir = cwd
-	so, _ := os.Create(filepath.Join(outDir, "child-stdout.txt"))
-	se, _ := os.Create(filepath.Join(outDir, "child-stderr.txt"))
-	defer so.Close()
-	defer se.Close()
-	cmd.Stdout, cmd.Stderr = so, se
-	cmd.SysProcAttr = &syscall.SysProcAttr{Setpgid: true}
-	env := []string{}
+	env := []string{"C19_NETNS=1"}
 	for _, e := range os.Environ() {
-		if strings.HasPrefix(e, "GORACE=") {
+		if strings.HasPrefix(e, "GORACE=") || strings.HasPrefix(e, "C19_NETNS=") {
 			continue
 		}
 		env = append(env, e)
 	}
-	cmd.Env = env
-	if err := cmd.Start(); err != nil {
-		return "spawn", err.Error()
+	so, _ := os.Create(filepath.Join(outDir, "child-stdout.txt"))
+	se, _ := os.Create(filepath.Join(outDir, "child-stderr.txt"))
+	defer so.Close()
+	defer se.Close()
+	// Mosn.Init binds the admin-store services of the configuration (e.g. the pprof server of "pprof":{"debug":true}):
+	// each child gets a private network namespace so that concurrently running checks cannot take its ports and it
+	// cannot reach anything. Where namespaces are not permitted the child runs in the host namespace (with retries).
+	var cmd *exec.Cmd
+	for _, netns := range []bool{true, false} {
+		cmd = exec.Command(self, "c19-reload", "--property", c.Property, "--out", outDir, cfgPath, dumpOut)
+		cmd.Dir = cwd
+		cmd.Stdout, cmd.Stderr = so, se
+		cmd.SysProcAttr = &syscall.SysProcAttr{Setpgid: true}
+		cmd.Env = env
+		if netns {
+			cmd.SysProcAttr.Unshareflags = syscall.CLONE_NEWNET
+		} else {
+			cmd.Env = env[1:]
+			c.Count("children-without-private-netns", 1)
+		}
+		err := cmd.Start()
+		if err == nil {
+			break
+		}
+		if !netns {
+			return "spawn", err.Error()
+		}
 	}
 	done := make(chan error, 1)
 	go func() { done <- cmd.Wait() }()
@@ -386,7 +424,7 @@ func c19SystemCase(c *lab.Ctx, node *c19Node, id int, label, cfgPath, confDir, c
 		}
 		report("second-dump-equals-first", k, "second dump differs from the first dump")
 	}
-	if c19Canon(snap1) != c19Canon(snap2) {
+	if c19SnapCanon(snap1) != c19SnapCanon(snap2) {
 		c.Violation("second-dump-equals-first", "C19/MOSNConfig/second-dump-differs/dynamic-directory", "the cluster/router directories written by the second dump of "+label+" differ from those of the first",
 			wit(map[string]interface{}{"dirs1": snap1, "dirs2": snap2}))
 	}
@@ -441,6 +479,7 @@ func c19Samples(c *lab.Ctx) {
 	}
 	loadable := 0
 	mine := 0
+	_, sentinelErr := os.Stat("/tmp/sentinel") // the flowcontrol samples name this directory literally
 	for si, p := range files {
 		if si%c.NBatch != c.Batch {
 			continue
@@ -487,6 +526,9 @@ func c19Samples(c *lab.Ctx) {
 	}
 	if c.Violations() == 0 {
 		_ = os.RemoveAll(tree)
+	}
+	if sentinelErr != nil {
+		_ = os.RemoveAll("/tmp/sentinel")
 	}
 	if replay < 0 {
 		c.Require("sample configurations loaded", loadable >= 2, fmt.Sprintf("%d of %d sample files of this batch loadable", loadable, mine))
